@@ -14,7 +14,7 @@ import re
 
 import symex
 import terms as T
-from common import Ctx
+from common import Ctx, is_inner_vm
 from facts import walk, strip, norm_path
 
 KINDS = ["EbpfVmMbuff", "EbpfVmFixedMbuff", "EbpfVmRaw", "EbpfVmNoData"]
@@ -117,7 +117,7 @@ def _compile_rules(rep, cx, tag=""):
             probs, n_ok, delegated = [], 0, False
             for v, s in outs:
                 calls = [e for e in s.effects if e[0] == "call" and isinstance(e[1], str)]
-                if result_kind(v) == "?" and len(calls) == 1 and calls[0][1].endswith("::" + meth) and v == calls[0][3] and "'parent'" in repr(calls[0][2][0]):
+                if result_kind(v) == "?" and len(calls) == 1 and calls[0][1].endswith("::" + meth) and v == calls[0][3] and is_inner_vm(calls[0][2][0]):
                     delegated = True
                     continue
                 if result_kind(v) != "Ok":
@@ -360,7 +360,10 @@ def _none_to_err(rep, rule, cx, path, kind, meth):
         # None arm returns Err (checked on its THIR below)
         reached = [e for _v, s in outs for e in s.effects if e[0] == "call" and e[1] == cx.roles.interpreter()]
         ok = bool(reached) and all(e[2][0] == symex.NONE for e in reached)
-        if ok:
+        if not reached:
+            # the wrapper tells the "no program" case apart itself: every path is an Err and the interpreter never runs
+            ok = bool(outs) and all(result_kind(v) == "Err" for v, _s in outs)
+        elif ok:
             ev2 = symex.Evaluator(F, opaque_calls=lambda p: False)
             fnI = F.fns[cx.roles.interpreter()]
             argsI = [symex.NONE] + [ev2.sym_for("p%d" % i, p["ty"]) for i, p in enumerate(fnI["thir"]["params"][1:])]
